@@ -105,7 +105,7 @@ package sign
 // ---- Finalize methods (C05): with the state the previous rounds stored (every signer's entries present -- the handler
 // finalizes a round only after all its messages were stored, C07 -- and of the shapes the acceptance gates let
 // through) nothing panics; the masks sampled by the provers and by the MtA stay inside Paillier's plaintext range.
-//@ pred sgall(r *round1) := forall(j, party.ID, inslice(r.Helper.partyIDs, j) ==> sgparty(r, j)) && inslice(r.Helper.partyIDs, r.Helper.info.SelfID) && forall(x, party.ID, inslice(r.Helper.otherPartyIDs, x) ==> inslice(r.Helper.partyIDs, x)) && paillier.skwf(r.SecretPaillier) && r.SecretECDSA != nil
+//@ pred sgall(r *round1) := forall(j, party.ID, inslice(r.Helper.partyIDs, j) ==> sgparty(r, j)) && each(r.Helper.otherPartyIDs, x, sgparty(r, x)) && sgparty(r, r.Helper.info.SelfID) && inslice(r.Helper.partyIDs, r.Helper.info.SelfID) && forall(x, party.ID, inslice(r.Helper.otherPartyIDs, x) ==> inslice(r.Helper.partyIDs, x)) && paillier.skwf(r.SecretPaillier) && r.SecretECDSA != nil
 //@ func (*round1).Finalize
 //@   nopanic[C05]
 //@   use bits
